@@ -244,7 +244,10 @@ func (h *hist) step() {
 	// what a mutation through a child handle must show through the parent
 	var mutated, firstViaNil bool
 	var mustHave [][]model.Fld
-	op := r.Intn(13)
+	op := r.Intn(14)
+	var crossName, crossWName string // address of an empty container that got settings of the other kind in this step, and of the setting
+	var crossWIdx int
+	var crossed bool
 	switch {
 	case op < 6: // set
 		var err error
@@ -323,6 +326,12 @@ func (h *hist) step() {
 			}
 		default:
 			sub := smallTree(r)
+			if r.Intn(4) == 0 {
+				// an empty list or an empty dictionary (what settings of the
+				// other kind are written into later, see the cross-kind step)
+				sub = []*model.Node{model.List(), model.Dict()}[r.Intn(2)]
+				h.res.Ev("setchild_of_empty_container", 1)
+			}
 			sc, e := ucfg.NewFrom(sub.ToGo())
 			if e != nil {
 				h.fail("newfrom-error", "NewFrom(%s) failed: %v", sub, e)
@@ -504,6 +513,92 @@ func (h *hist) step() {
 				break
 			}
 		}
+	case op == 13: // an EMPTY container of one kind receives settings of the other kind
+		cname, cfs, empty, ok := h.emptyContainer(t)
+		if !ok {
+			return
+		}
+		// what the container is: a list (made as one, or emptied by Remove), a
+		// dictionary (emptied by Remove: the table is still there), or blank
+		named := empty.HasA || h.emptied[empty]
+		if !named && empty.D == nil {
+			named = r.Intn(2) == 0
+		}
+		kindOfEmpty := map[bool]string{true: "empty-list-gets-names", false: "empty-dictionary-gets-elements"}[named]
+		x := int64(r.Intn(100) - 50)
+		var err error
+		var what string
+		via := r.Intn(3)
+		if h.sep == "" && named {
+			via = 2 // without a separator a name below cname can only be said by a Merge
+		}
+		for _, f := range cfs {
+			if f.IsI && via == 2 {
+				via = r.Intn(2) // a list position on the way can not be said in a merge operand
+			}
+		}
+		if h.sep == "" && named && via != 2 {
+			return
+		}
+		key := []string{"a", "b", "c"}[r.Intn(3)]
+		wname, widx := cname, 0
+		if named {
+			wname, widx = cname+h.sep+key, -1
+		}
+		wfs := model.ParsePath(wname, widx, h.sep)
+		switch via {
+		case 0:
+			what = fmt.Sprintf("SetInt(%d)@(%q,%d)", x, wname, widx)
+			err = t.c.SetInt(wname, widx, x, h.o...)
+			if err == nil && !model.Set(t.n, wfs, model.P(x)) {
+				h.fail("set-outcome", "%s accepted, the model refuses it", what)
+				return
+			}
+		case 1:
+			sub := smallTree(r)
+			sc, e := ucfg.NewFrom(sub.ToGo())
+			if e != nil {
+				h.fail("newfrom-error", "NewFrom(%s) failed: %v", sub, e)
+				return
+			}
+			what = fmt.Sprintf("SetChild(%s)@(%q,%d)", sub, wname, widx)
+			err = t.c.SetChild(wname, widx, sc, h.o...)
+			if err == nil && !model.Set(t.n, wfs, sub.Copy()) {
+				h.fail("set-outcome", "%s accepted, the model refuses it", what)
+				return
+			}
+		default:
+			// a Merge operand that spells the way down as nested dictionaries
+			var leaf *model.Node
+			if named {
+				leaf = model.Dict()
+				leaf.D[key] = model.P(x)
+			} else {
+				leaf = model.List(model.P(x))
+			}
+			for i := len(cfs) - 1; i >= 0; i-- {
+				up := model.Dict()
+				up.D[cfs[i].Name] = leaf
+				leaf = up
+			}
+			what = fmt.Sprintf("Merge(%s)", leaf)
+			err = t.c.Merge(leaf.ToGo())
+			if err == nil {
+				h.merge(t.n, leaf, model.PDefault)
+			}
+		}
+		h.res.Eval(1)
+		h.log = append(h.log, fmt.Sprintf("%s.%s", t.desc, what))
+		if err != nil {
+			h.fail("cross-kind-write-refused:"+kindOfEmpty, "%s failed: %v", what, err)
+			return
+		}
+		h.muts++
+		mutated, mustHave = true, [][]model.Fld{wfs}
+		crossName, crossWName, crossWIdx, crossed = cname, wname, widx, true
+		h.stepClass = "cross-kind:" + kindOfEmpty
+		h.res.Ev("cross_kind:"+kindOfEmpty+":"+[]string{"setter", "setchild", "merge"}[via], 1)
+		h.res.SetAdd("op", "cross-kind")
 	default: // obtain a child handle
 		node, e := model.Get(t.n, fs)
 		ch, err := t.c.Child(name, idx, h.o...)
@@ -577,6 +672,13 @@ func (h *hist) step() {
 		if w := x.n.CanonTop(); g != w {
 			h.fail(h.sigFor(x, "child-view-stale"), "handle %s shows %s, the tree holds %s there", x.desc, g, w)
 			return
+		}
+	}
+	if crossed && !h.failed {
+		// the container and the new setting, through every observer, right away
+		h.probeAt(t, crossName, -1, "probe-cross-kind")
+		if !h.failed {
+			h.probeAt(t, crossWName, crossWIdx, "probe-cross-kind")
 		}
 	}
 	targets = h.live() // handles given up during the step are not asked any more
@@ -841,6 +943,9 @@ func (h *hist) nilClass(node *model.Node, base string) string {
 	}
 	if node != nil && h.wasNil[node] {
 		return sigChildOfNil
+	}
+	if node.IsSub() && len(node.D) > 0 && len(node.A) == 0 && strings.HasPrefix(base, "countfield") && !strings.HasPrefix(base, "countfield-does-not") {
+		return "countfield:dictionary-without-list-elements"
 	}
 	return base
 }
